@@ -62,6 +62,21 @@ theorem C03_gen_id_pushes3 (m : Map X) (x : Nat) :
     Gen.idPushes3.map (fun e => (e.1, e.2.map (applyPath m x))) =
       [(0, Cell3.g3v m x), (1, g3 m .edge x), (2, g3 m .volume x)] := rfl
 
+/-- **C03, tie of the 2-D identifier walks**: `CMap2::vertex_id_transac` and `face_id_transac` (dim2/basic_ops.rs have
+    their own loops, apart from `orbit_transac`) mark, fold into the minimum and queue exactly the images of the
+    `Vertex` / `Face` policy, in the same order — the generators `vertexId2` / `faceId2` of the model traverse
+    (`C03_vertexId2_min`, `C03_faceId2_min`) -/
+theorem C03_gen_id_pushes2 (m : Map X) (x : Nat) :
+    Gen.idPushes2.map (fun e => (e.1, e.2.map (applyPath m x))) = [(0, g2 m .vertex x), (1, g2 m .face x)] := rfl
+
+/-- the 2-D identifier walks examine the same compositions as the `Vertex` / `Face` arms of `orbit_transac` -/
+theorem C03_gen_id_walks2_eq_arms :
+    Gen.idPushes2.lookup 0 = Gen.orbitArms2.lookup 0 ∧ Gen.idPushes2.lookup 1 = Gen.orbitArms2.lookup 3 := by decide
+
+/-- **tie of `CMap2::edge_id_transac`**: the shortcut reads β2 — with it the translated function is `edgeId2` -/
+theorem C03_gen_edgeId2 (d : Nat) :
+    (do let b ← rB (X := X) Gen.edgeIdImage2 d; if b = 0 then pure d else pure (min b d)) = edgeId2 d := rfl
+
 /-- the vertex walk pushes the images of the `Vertex` policy (as a set: the order differs) -/
 theorem C03_gen_vertex_walk_same_images :
     ((Gen.idPushes3.lookup 0).getD []).all (fun p => ((Gen.orbitArms3.lookup 0).getD []).contains p) = true ∧
